@@ -26,6 +26,7 @@ func c03TextAlphabet() []wStep {
 		{Text: []string{"SET", "x", "5", "EX", "1"}},
 		{Text: []string{"GET", "x"}},
 		{Text: []string{"PUSH", "k3", "LOCK_ID", "d4", "TIMEOUT", "0", "EXPRIED", "1"}},
+		{Text: []string{"PUSH", "k2", "LOCK_ID", "e5", "TIMEOUT", "5", "EXPRIED", "1"}}, // queues behind b2 and is woken by the connection's own UNLOCK
 		{Tick: 3 * sec},
 	}
 }
